@@ -51,7 +51,7 @@ ALPHABET = [
     "reparse", "copy", "export_import", "shading", "shadow_triple", "delete_shadow",
     "ungroup_ports", "ungroup_ports_group", "ace_ungroup_ports", "tcam", "set_item_seq",
     "set_remark_text", "set_members", "set_type", "conv_obj", "ag_resequence", "set_note", "set_ports", "scribble_ipnets",
-    "foreign_parse", "resequence_group", "nested_resequence",
+    "foreign_parse", "resequence_group", "nested_resequence", "set_addr", "set_option",
 ]
 
 BIAS = {
@@ -63,7 +63,7 @@ BIAS = {
     "C04": {"shadow_triple": 10, "delete_shadow": 3, "shading": 3, "shadow_of": 1, "group": 2,
             "ungroup": 1, "resequence": 1, "insert": 2, "append": 2, "set_platform": 1,
             "set_members": 5, "copy": 1, "permute_popins": 1, "set_note": 2,
-            "scribble_ipnets": 2, "ungroup_ports": 2},
+            "scribble_ipnets": 2, "ungroup_ports": 2, "set_addr": 2, "set_option": 1},
     "C10": {"resequence": 10, "ag_resequence": 3, "resequence_group": 3, "nested_resequence": 3, "group": 2, "ungroup": 1, "sort": 1,
             "reverse": 1, "insert": 1, "append": 1, "pop": 1, "set_item_seq": 1,
             "permute_popins": 1, "set_platform": 1, "set_note": 2},
@@ -72,7 +72,8 @@ BIAS = {
             "items_self": 1, "set_remark_text": 1},
     "C19": {"ungroup_ports": 8, "ungroup_ports_group": 3, "ace_ungroup_ports": 4,
             "set_platform": 3, "group": 2, "ungroup": 1, "resequence": 1, "insert": 2,
-            "append": 1, "copy": 1, "set_ports": 3, "export_import": 1},
+            "append": 1, "copy": 1, "set_ports": 3, "export_import": 1, "set_addr": 1,
+            "set_option": 1},
 }
 
 
@@ -1946,6 +1947,21 @@ class AclMachine(Machine):
             items = sorted(s.sample([21, 22, 25, 80, 443, 8080, 1, 65535], n_))
             return dict(op=kind, i=i, j=j, side=side, operator="eq", items=items,
                         via=s.choice(["items", "line"]))
+        if kind in ("set_addr", "set_option"):
+            cands = [(i, j) for i, b in enumerate(m.blocks) for j, r in enumerate(b.rules)
+                     if r.kind == "ace"]
+            i, j = s.choice(cands) if cands else (0, 0)
+            if kind == "set_addr":
+                a = gen.gen_addr(w, dict(cfg, p_group=0.0))
+                while a[0] == "group":
+                    a = gen.gen_addr(w, dict(cfg, p_group=0.0))
+                if a[0] == "wild" and gen.ncw_bits(a[2]) > 6:
+                    a = ("any",)
+                return dict(op=kind, i=i, j=j, side=s.choice(["src", "dst"]),
+                            line=gen.render_addr(a, m.platform))
+            flags = s.choice([[], [], ["ack"], ["syn", "ack"], ["established"], ["fin", "rst"]])
+            logs = s.choice([[], [], ["log"], ["log-input"] if m.platform == "ios" else ["log"]])
+            return dict(op=kind, i=i, j=j, flags=flags, logs=logs)
         if kind == "scribble_ipnets":
             def ncw(a):
                 cubes = a.members if a.group else (a.cube,)
